@@ -588,6 +588,12 @@ def run(run: Run):
     run.guard('C06.R7', r7, run, src, g)
     run.guard('C06.R8', r8, run, src)
     run.guard('C06.R9', r9, run, src, em)
+    # "defines the class with the workbook's titles and sizes": the three per-sheet lists are index-aligned (shared with C18.R2)
+    from .common import borrow
+    from . import c18
+    run.rule('C06.R10', 'titles, data and sizes handed to the generated class are index-aligned per worksheet (shared with C18.R2)')
+    borrow(run, 'C06.R10', c18.r2, src)
+    run.floor('C06.R10', 5)
     run.floor('C06.R1', 15)
     run.floor('C06.R2', 60)
     run.floor('C06.R3', 4)
